@@ -60,7 +60,7 @@ class C03(RecorderProp):
         runs = [{'run': 'op', 'cls': 'OpA', 'enabled': True, 'script': script, 'draws': [], 'clock': [1, 2]}]
         if rng.random() < 0.3:
             # an earlier playback that is aborted after it already sent outputs (newer code asks for something unrecorded)
-            outs = [st for st in script[:-1] if sites[st['s']]['kind'] == 'out'][:3]
+            outs = [st for st in script[:-1] if st['op'] == 'call' and sites[st['s']]['kind'] == 'out'][:3]
             sites['missing'] = {'kind': 'in', 'alias': 'not-recorded', 'flavor': 'instance', 'capture': 'all', 'resolver': None,
                                 'nargs': 0, 'kwnames': [], 'handler': '', 'runOriginal': False, 'substitute': None,
                                 'fallbacks': None, 'body': [{'op': 'ret', 'e': const(None)}]}
@@ -73,7 +73,7 @@ class C03(RecorderProp):
                 'sites': sites, 'runs': runs}
 
     def edit(self, rng, script, sites):
-        outs = [i for i, st in enumerate(script[:-1]) if sites[st['s']]['kind'] == 'out']
+        outs = [i for i, st in enumerate(script[:-1]) if st['op'] == 'call' and sites[st['s']]['kind'] == 'out']
         kind = rng.choice(['same', 'arg', 'drop', 'add', 'swap', 'final', 'raise'])
         if kind == 'arg' and outs:
             i = rng.choice(outs)
@@ -95,6 +95,9 @@ class C03(RecorderProp):
             script[-1] = {'op': 'ret', 'e': const({'s': 'EDITED-RESULT'})}
         elif kind == 'raise':
             script[-1] = {'op': 'raise', 't': rng.choice(RAISED)}
+        if rng.random() < 0.25:
+            # the replayed code also talks to the recorder (drop / keep this recording): documented no-ops while replaying
+            script.insert(rng.randint(0, len(script) - 1), {'op': rng.choice(['discard', 'discard', 'force'])})
         return script
 
     def generate(self, rng, tier):
